@@ -267,10 +267,12 @@ def monthSegments (r : MonthRec) (ipf : Bool) (rate : Rat) (fhc lhc fhh lhh : Ra
     c ++ h ++ [(rate, lmh)]
   else [(rate, lmh)]
 
-/-- The rate of the month's average segments (`month_rate`). -/
+/-- The rate of the month's average segments (`month_rate`).  In a retained month the averaging
+    period is the month minus the durations of the pulses that are emitted (non-zero monthly peak). -/
 def monthRate (r : MonthRec) (ipf : Bool) (hoursInMonth : Int) : Py Rat :=
   if ipf then
-    pyDiv (r.cl - r.hl - r.pcl * r.dcl + r.phl * r.dhl) ((hoursInMonth : Rat) - r.dcl - r.dhl)
+    pyDiv (r.cl - r.hl - r.pcl * r.dcl + r.phl * r.dhl)
+      ((hoursInMonth : Rat) - (if r.pcl > 0 then r.dcl else 0) - (if r.phl > 0 then r.dhl else 0))
   else
     pyDiv (r.cl - r.hl) (hoursInMonth : Rat)
 
